@@ -89,12 +89,43 @@ fn cold_query_case(tt: TT, n: usize) -> Vec<(String, String)> {
                         }
                     }
                 }
-                // depth of every node of a store on which only this one query was made
-                for x in 0..b.nodes.len() {
-                    let d = b.max_depth(Term(x));
-                    if d != rc[x].2 {
-                        found.push(("cold:depth".into(), format!("max_depth({}) is {} but the longest path has {} decisions (store queried once before)", x, d, rc[x].2)));
-                        break;
+                // after this one first query: every query on every node of the store (a query must not spoil what later
+                // queries read), then once more after further diagrams were built on top
+                let mut b = b;
+                for stage in 0..2 {
+                    let rc = recount(&b.nodes);
+                    let tts = all_tts(&b.nodes, n).unwrap_or_default();
+                    let f = features();
+                    for x in 0..b.nodes.len() {
+                        let t = Term(x);
+                        let d = b.max_depth(t);
+                        if d != rc[x].2 {
+                            found.push(("cold:depth".into(), format!("max_depth({}) is {} but the longest path has {} decisions (stage {} after first query #{})", x, d, rc[x].2, stage, which)));
+                            break;
+                        }
+                        for memo in [true, false] {
+                            let p = b.paths(t, memo);
+                            if p.cmodels as u128 != rc[x].0 || p.models as u128 != rc[x].1 {
+                                found.push(("cold:paths-later".into(), format!("paths({}, memo={}) is ({},{}) instead of ({},{}) (stage {} after first query #{})", x, memo, p.cmodels, p.models, rc[x].0, rc[x].1, stage, which)));
+                                break;
+                            }
+                            if (memo && f.adhoccounting && !f.adhoccountmodels) || tts.is_empty() {
+                                continue;
+                            }
+                            let m = b.models(t, memo);
+                            let sat = tts[x].count_ones() as u128;
+                            let unsat = (1u128 << n) - sat;
+                            if (m.models as u128) * unsat != (m.cmodels as u128) * sat || (m.models == 0 && m.cmodels == 0) {
+                                found.push(("cold:models-later".into(), format!("models({}, memo={}) is ({},{}) for {} counter-models / {} models (stage {} after first query #{})", x, memo, m.cmodels, m.models, unsat, sat, stage, which)));
+                                break;
+                            }
+                        }
+                    }
+                    if stage == 0 {
+                        let v = b.variable(var(n - 1));
+                        let a = b.and(h, v);
+                        let o = b.xor(a, h);
+                        let _ = b.not(o);
                     }
                 }
                 found
